@@ -68,6 +68,12 @@ struct Ctx {
     drv: Driver,
     rep: Report,
     dbg: &'static str,
+    search: bool,
+    spec: Option<Driver>,
+}
+
+fn case01(base: Option<&str>, input: &str) -> String {
+    format!("parse01 {} {}", base.map(hexs).unwrap_or_else(|| "~".into()), hexs(input))
 }
 
 impl Ctx {
@@ -81,6 +87,14 @@ impl Ctx {
         let (imp, parsed) = impl_parse_url(ovr, false, base, input);
         let sig = sig_of(&imp, input, base);
         self.rep.case(stream, &req, &model, &imp, !input.is_empty(), &sig);
+        if self.search && model != imp {
+            let bs = base.map(|b| b.as_str().to_string());
+            if let Some(w) = self.violates_standard(bs.as_deref().zip(base), input) {
+                if self.rep.failures.len() < 20 {
+                    self.rep.failures.push((case01(bs.as_deref(), input), w));
+                }
+            }
+        }
         // callback independence: the same call with a violation callback installed
         let imp_cb = impl_parse(ovr, true, base, input);
         if imp_cb != imp {
@@ -97,10 +111,51 @@ impl Ctx {
     }
 }
 
-fn run_corr(args: &Args) -> Report {
+impl Ctx {
+    /// C01 on the implementation for one case: Some(description) when the implementation deviates from
+    /// the specification model outside Known_C01
+    fn violates_standard(&mut self, base: Option<(&str, &Url)>, input: &str) -> Option<String> {
+        let drv2 = self.spec.as_mut()?;
+        let req = format!("parse {} {}", base.map(|b| hexs(b.0)).unwrap_or_else(|| "~".into()), hexs(input));
+        let ans = drv2.ask_with(&req, spec_oracle);
+        let spec = match decode_answer(&ans) {
+            Ok(v) => v.join(" | "),
+            Err(k) => k,
+        };
+        let imp = match std::panic::catch_unwind(std::panic::AssertUnwindSafe(|| Url::options().base_url(base.map(|b| b.1)).parse(input))) {
+            Ok(Ok(u)) => impl_api(&u).join(" | "),
+            Ok(Err(_)) => "fail".to_string(),
+            Err(_) => "panic".to_string(),
+        };
+        if imp == "panic" {
+            return Some(format!("parsing {:?} against {:?} panics", input, base.map(|b| b.0)));
+        }
+        if spec != imp && known_c01(base.map(|b| b.1), input).is_none() {
+            return Some(format!("parsing {:?} against {:?}: Standard gives <{}>, implementation gives <{}>", input, base.map(|b| b.0), spec, imp));
+        }
+        // callback / UTF-8 override independence
+        let plain = impl_parse(0, false, base.map(|b| b.1), input);
+        if impl_parse(0, true, base.map(|b| b.1), input) != plain || impl_parse(1, false, base.map(|b| b.1), input) != plain {
+            return Some(format!("parsing {:?}: result depends on the violation callback or the UTF-8 encoding override", input));
+        }
+        None
+    }
+}
+
+fn new_ctx(args: &Args, search: bool) -> Ctx {
     let dbg = if cfg!(debug_assertions) { "1" } else { "0" };
-    let mut cx = Ctx { drv: Driver::spawn(&args.driver), rep: Report::new(), dbg };
-    let thorough = args.tier == "thorough";
+    Ctx {
+        drv: Driver::spawn(&args.driver),
+        rep: Report::new(),
+        dbg,
+        search,
+        spec: if args.driver2.is_empty() { None } else { Some(Driver::spawn(&args.driver2)) },
+    }
+}
+
+fn run_corr(args: &Args, search: bool) -> Report {
+    let mut cx = new_ctx(args, search);
+    let thorough = args.tier == "thorough" || search;
     let mut rng = Rng::new(args.seed);
     let bases: Vec<Url> = base_pool().iter().map(|s| Url::parse(s).expect("base")).collect();
 
@@ -170,6 +225,8 @@ fn run_corr(args: &Args) -> Report {
             }
         }
     }
+    run_standard(&mut cx, args);
+    cx.rep.failures.sort_by_key(|(c, _)| c.len());
     cx.rep
 }
 
@@ -202,7 +259,7 @@ fn has_drive_segment(t: &[char]) -> bool {
         t[i].is_ascii_alphabetic()
             && i + 1 < t.len()
             && (t[i + 1] == ':' || t[i + 1] == '|')
-            && (i == 0 || is_end(t[i - 1]) || t[i - 1] == ':')
+            && (i == 0 || is_end(t[i - 1]))
             && (i + 2 == t.len() || is_end(t[i + 2]))
     })
 }
@@ -218,7 +275,14 @@ fn known_c01(base: Option<&Url>, input: &str) -> Option<&'static str> {
         return Some("K1-file-scheme");
     }
     let base_path: Vec<char> = base.map(|b| b.path().chars().collect()).unwrap_or_default();
-    if has_drive_segment(&t) || has_drive_segment(&base_path) {
+    let rest: &[char] = match &sch {
+        Some(_) => {
+            let p = t.iter().position(|&c| c == ':').map(|p| p + 1).unwrap_or(0);
+            &t[p..]
+        }
+        None => &t[..],
+    };
+    if has_drive_segment(rest) || has_drive_segment(&base_path) {
         return Some("K2-drive-letter-shaped-segment");
     }
     if !is_special_scheme(eff) && t.contains(&'\\') {
@@ -230,7 +294,11 @@ fn known_c01(base: Option<&Url>, input: &str) -> Option<&'static str> {
     None
 }
 
-fn spec_vs_impl(cx: &mut Ctx, drv2: &mut Driver, stream: &str, base: Option<(&str, &Url)>, input: &str) {
+fn spec_vs_impl(cx: &mut Ctx, stream: &str, base: Option<(&str, &Url)>, input: &str) {
+    let drv2 = match cx.spec.as_mut() {
+        Some(d) => d,
+        None => return,
+    };
     let req = format!("parse {} {}", base.map(|b| hexs(b.0)).unwrap_or_else(|| "~".into()), hexs(input));
     let ans = drv2.ask_with(&req, spec_oracle);
     let spec = match decode_answer(&ans) {
@@ -243,6 +311,16 @@ fn spec_vs_impl(cx: &mut Ctx, drv2: &mut Driver, stream: &str, base: Option<(&st
         Err(_) => "panic".to_string(),
     };
     let human = format!("{}   [input {:?} base {:?}]", req, input, base.map(|b| b.0));
+    // the Coq and the Rust version of Known_C01 must agree on every case
+    let kreq = format!("known01 {} {}", base.map(|b| url_token(b.1)).unwrap_or_else(|| "~".into()), hexs(input));
+    let km = cx.drv.ask_with(&kreq, url_oracle);
+    let ki = match known_c01(base.map(|b| b.1), input) {
+        None => "0",
+        Some(k) => &k[1..2],
+    };
+    if km != ki {
+        cx.rep.case("known-predicate", &kreq, &km, ki, true, "known01");
+    }
     if spec == imp {
         cx.rep.case(stream, &human, &spec, &imp, !input.is_empty(), if spec == "fail" { "std:fail" } else { "std:ok" });
     } else if let Some(k) = known_c01(base.map(|b| b.1), input) {
@@ -250,17 +328,22 @@ fn spec_vs_impl(cx: &mut Ctx, drv2: &mut Driver, stream: &str, base: Option<(&st
         cx.rep.bump(&format!("known-divergence:{}", k));
     } else {
         cx.rep.case(stream, &human, &spec, &imp, true, "std:DIVERGES");
+        if cx.search && cx.rep.failures.len() < 20 {
+            cx.rep.failures.push((case01(base.map(|b| b.0), input), format!("Standard gives <{}>, implementation gives <{}>", spec, imp)));
+        }
     }
 }
 
 /// the Standard side of the check: WPT validation of the specification model (no exception list) and
 /// the fixed-seed differential run of the implementation against it outside Known_C01
 fn run_standard(cx: &mut Ctx, args: &Args) {
-    if args.driver2.is_empty() {
-        return;
+    match cx.spec.take() {
+        None => return,
+        Some(mut d) => {
+            wpt_validation(&mut d, &mut cx.rep, "parse");
+            cx.spec = Some(d);
+        }
     }
-    let mut drv2 = Driver::spawn(&args.driver2);
-    wpt_validation(&mut drv2, &mut cx.rep, "parse");
     let pool = base_pool();
     let bases: Vec<Url> = pool.iter().map(|s| Url::parse(s).expect("base")).collect();
     // WPT vectors: implementation vs specification model
@@ -269,7 +352,7 @@ fn run_standard(cx: &mut Ctx, args: &Args) {
             for e in a.iter().filter(|e| e.is_object()) {
                 let input = e["input"].as_str().unwrap_or("");
                 let b = e["base"].as_str().and_then(|b| Url::parse(b).ok().map(|u| (b.to_string(), u)));
-                spec_vs_impl(cx, &mut drv2, "std-wpt", b.as_ref().map(|x| (x.0.as_str(), &x.1)), input);
+                spec_vs_impl(cx, "std-wpt", b.as_ref().map(|x| (x.0.as_str(), &x.1)), input);
             }
         }
     }
@@ -280,28 +363,89 @@ fn run_standard(cx: &mut Ctx, args: &Args) {
         let s = random_url_string(&mut rng);
         let s = if i % 3 == 0 { mutate_string(&mut rng, &s) } else { s };
         let bi = if rng.chance(1, 2) { None } else { Some(rng.below(bases.len())) };
-        spec_vs_impl(cx, &mut drv2, "std-differential", bi.map(|b| (pool[b], &bases[b])), &s);
+        spec_vs_impl(cx, "std-differential", bi.map(|b| (pool[b], &bases[b])), &s);
     }
     let k = if args.tier == "thorough" { 3 } else { 2 };
     for b in [None, Some(0usize), Some(9), Some(11)] {
         for_all_strings(&URL_CLASS, k, |s| {
             let st: String = s.iter().collect();
-            spec_vs_impl(cx, &mut drv2, "std-exh-class", b.map(|b| (pool[b], &bases[b])), &st);
+            spec_vs_impl(cx, "std-exh-class", b.map(|b| (pool[b], &bases[b])), &st);
         });
     }
+}
+
+fn run_known(_args: &Args) -> Report {
+    let mut rep = Report::new();
+    let p = |base: Option<&str>, input: &str| -> String {
+        let b = base.map(|b| Url::parse(b).unwrap());
+        match std::panic::catch_unwind(std::panic::AssertUnwindSafe(|| Url::options().base_url(b.as_ref()).parse(input))) {
+            Ok(Ok(u)) => u.to_string(),
+            Ok(Err(e)) => format!("Err({:?})", e),
+            Err(_) => "PANIC".into(),
+        }
+    };
+    // (id, base, input, what the pinned code returns; the entry reproduces when it still does)
+    let table: [(&str, Option<&str>, &str, &str); 10] = [
+        ("F-C01-1", Some("file://host/path"), "/c:/foo/bar", "file:///c:/foo/bar"),
+        ("F-C01-2", None, "file:////foo", "file:///foo"),
+        ("F-C01-8", None, "non-spec://x.y:8\\", "non-spec://x.y:8/\\"),
+        ("F-C01-9", None, "non-spec:/C|/..", "non-spec:/C|/"),
+        ("F-C01-11", None, "file:///C|", "file:///C|"),
+        ("F-C01-12", None, "blob://:@/", "blob:///"),
+        // fixed findings: reproduce = the old behaviour is back
+        ("F-C01-4", Some("non-spec://good.example/dir/file"), "\\\\evil.example/x", "non-spec://evil.example/x"),
+        ("F-C01-6", None, "non-spec://@", "non-spec://"),
+        ("F-C01-10", Some("http://h/a/b"), "///x/y", "Err(EmptyHost)"),
+        ("F-C01-10b", Some("http://h/a/b"), "///x/y", "Err(EmptyHost)"),
+    ];
+    for (id, base, input, old) in table.iter() {
+        if *id == "F-C01-10b" {
+            continue;
+        }
+        let got = p(*base, input);
+        rep.known.push((id.to_string(), got == *old, format!("parse {:?} against {:?} = {}", input, base, got)));
+    }
+    rep
+}
+
+fn run_replay(args: &Args) -> Report {
+    let mut cx = new_ctx(args, true);
+    let txt = std::fs::read_to_string(&args.file).unwrap_or_default();
+    let req = txt.split("\"request\":").nth(1).and_then(|s| s.split('"').nth(1)).unwrap_or("").to_string();
+    let w: Vec<&str> = req.split(' ').collect();
+    if w.len() != 3 || w[0] != "parse01" {
+        cx.rep.notes.push("replay file has no parse01 request (no-failing-input-found replay): nothing to re-run".into());
+        return cx.rep;
+    }
+    let bs = if w[1] == "~" { None } else { Some(unhexs(w[1])) };
+    let input = unhexs(w[2]);
+    let base = bs.as_ref().and_then(|b| Url::parse(b).ok());
+    cx.rep.notes.push(format!("input {:?} base {:?}", input, bs));
+    cx.rep.notes.push(format!("implementation: {}", impl_parse(0, false, base.as_ref(), &input)));
+    let bt = base.as_ref().map(url_token).unwrap_or_else(|| "~".into());
+    let mreq = format!("parse {} 0 {} {}", cx.dbg, bt, hexs(&input));
+    let m = cx.drv.ask_with(&mreq, url_oracle);
+    cx.rep.notes.push(format!("model of the unchanged code: {}", m));
+    cx.rep.evaluations = 1;
+    if let Some(wh) = cx.violates_standard(bs.as_deref().zip(base.as_ref()), &input) {
+        cx.rep.failures.push((req.clone(), wh));
+    }
+    cx.rep
 }
 
 fn main() {
     quiet_panics();
     let args = parse_args();
     let rep = match args.mode.as_str() {
-        "corr" => run_corr(&args),
+        "corr" => run_corr(&args, false),
+        "search" => run_corr(&args, true),
         "std" => {
-            let dbg = if cfg!(debug_assertions) { "1" } else { "0" };
-            let mut cx = Ctx { drv: Driver::spawn(&args.driver), rep: Report::new(), dbg };
+            let mut cx = new_ctx(&args, false);
             run_standard(&mut cx, &args);
             cx.rep
         }
+        "known" => run_known(&args),
+        "replay" => run_replay(&args),
         m => panic!("unknown mode {}", m),
     };
     finish(&args, &rep);
